@@ -116,7 +116,7 @@ theorem widen_float (lo hi lo' hi' : Fl) (hlo : lo' ≤ lo) (hhi : hi ≤ hi') (
     · cases b <;> simp [sameNullary] at h
     · right; unfold asgRecv at h ⊢
       cases b <;> simp at h ⊢
-      exact ⟨Int.le_trans hlo h.1, Int.le_trans h.2 hhi⟩
+      exact ⟨Int.le_trans (Fl.effLo_mono hlo) h.1, Int.le_trans h.2 (Fl.effHi_mono hhi)⟩
   · rw [asg_notUndef_r, hnt] at h ⊢
     simp [Ty.isAny] at h ⊢
     unfold asgRecv at h; simp at h
